@@ -113,6 +113,10 @@ impl St {
             tr.borrow_mut().open = false;
         }
         tr.borrow_mut().credits = cfg_u64(cfg, "credits", 0) as usize;
+        if let Some(n) = cfg.get("spin").and_then(|v| v.as_u64()) {
+            // burst scenarios legitimately perform thousands of transport operations in one poll
+            tr.borrow_mut().spin_limit = n as u32;
+        }
         let mut config = client::Config::default();
         config.max_in_flight_requests = cfg_u64(cfg, "maxInFlight", 2) as usize;
         config.pending_request_buffer = cfg_u64(cfg, "buf", 1) as usize;
